@@ -11,7 +11,8 @@
    decided by the differential run against an independent per-codon table lookup: partial. *)
 From Coq Require Import ZArith QArith Qabs Bool List Ascii String Lia.
 From DC Require Import Model.Base Model.Loc Model.Bio Model.Pattern Model.MSpace Model.Specs
-                       Generated.GenTables Proofs.SpecsDefs Proofs.BioA Proofs.MSpaceDefs Proofs.SpecsCodon.
+                       Generated.GenTables Proofs.SpecsDefs Proofs.BioA Proofs.MSpaceDefs Proofs.SpecsCodon
+                       Model.Solver Proofs.SolverB Proofs.SolverC Proofs.SolverE Proofs.Builtins Proofs.CaiEnd.
 Import ListNotations.
 Open Scope Z_scope.
 
@@ -63,3 +64,120 @@ Theorem C07_cai_optimal_iff_every_codon_best : forall lf lb l s e cods,
 Proof. exact cai_optimal_iff_every_codon_best. Qed.
 Print Assumptions C07_cai_optimal_iff_every_codon_best.
 
+
+
+(* ---- the solver side of the end-to-end statement, abstract in the objective ----
+   optimize() drives every SEPARABLE objective to its declared best score 0: an objective whose score
+   is a sum of per-unit (per-codon) gaps <= 0, each depending only on the nucleotides of its unit,
+   whose first evaluation reports the units with a negative gap as breach locations, whose
+   localization to the span of a unit's local mutation space moves like that unit's gap
+   ([unit_searchable]: local space non-empty, below the exhaustive-search threshold, contains a
+   gap-closing variant); constraints whose local copies are skipped as "enforced by nucleotide
+   restrictions" (EnforceTranslation) are arbitrary. *)
+Section AnySeparableObjective.
+  Variable spec : Type.
+  Variable ev : spec -> dna -> Q * option (list loc).
+  Variable localize : spec -> loc -> bool -> dna -> lres spec.
+  Variable reinit : bool -> spec -> dna -> spec.
+  Variable enforced : spec -> bool.
+  Variable best : spec -> option Q.
+  Variable boost : spec -> Q.
+  Variable opt_heuristic : spec -> option (settings -> lproblem spec -> state spec -> outcome * state spec).
+  Variable space : mspace.
+  Variable n : Z.
+  Hypothesis space_wf : wf_space space.
+  Hypothesis space_fits : forall c, In c (choices_list space) -> cend c <= n.
+  Variable obj : spec.
+  Variable units : list loc.
+  Variable gap : loc -> dna -> Q.
+  Variable cfg : settings.
+  Variable cs : list spec.
+  Hypothesis gap_nonpos : forall u s, (gap u s <= 0)%Q.
+  Hypothesis ev_score : forall s, good space n s -> (fst (ev obj s) == qsum_gaps units gap s)%Q.
+  Hypothesis best_obj : best obj = Some 0%Q.
+  Hypothesis boost_obj : (0 < boost obj)%Q.
+  Hypothesis no_heuristic : opt_heuristic obj = None.
+  Hypothesis units_in : forall u, In u units -> 0 <= lstart u /\ lstart u < lend u /\ lend u <= n.
+  Hypothesis units_disjoint : forall (i j : nat) u v, nth_error units i = Some u -> nth_error units j = Some v ->
+    i <> j -> lend u <= lstart v \/ lend v <= lstart u.
+  Hypothesis gap_local : forall u s t, In u units -> good space n s -> good space n t ->
+    (forall i, lstart u <= i < lend u -> nth_error s (Z.to_nat i) = nth_error t (Z.to_nat i)) ->
+    (gap u s == gap u t)%Q.
+  Hypothesis constraints_skipped : forall c w s, In c cs ->
+    match localize c w true s with
+    | LSome c' => enforced (reinit false c' s) = true
+    | LNone => True
+    | LError => False
+    end.
+
+  Theorem C07_optimize_closes_every_initially_open_gap : forall passive st o st',
+    passive obj = false ->
+    state_good spec space n st ->
+    snd (ev obj (cur _ st)) = Some (filter (fun u => negative gap u (cur _ st)) units) ->
+    (forall u s, In u units -> negative gap u (cur _ st) = true -> good space n s -> negative gap u s = true ->
+                 unit_searchable spec ev localize reinit best boost space n obj gap cfg u s) ->
+    optimize spec ev localize reinit enforced best boost passive opt_heuristic cfg space cs [obj] st = (o, st') ->
+    o = ODone /\ good space n (cur _ st') /\ (fst (ev obj (cur _ st')) == 0)%Q /\
+    (forall u, In u units -> (gap u (cur _ st') == 0)%Q).
+  Proof.
+    exact (optimize_closes_initially_open_gaps spec ev localize reinit enforced best boost opt_heuristic
+             space n space_wf space_fits obj units gap cfg cs gap_nonpos ev_score best_obj boost_obj
+             no_heuristic units_in units_disjoint gap_local constraints_skipped).
+  Qed.
+End AnySeparableObjective.
+Print Assumptions C07_optimize_closes_every_initially_open_gap.
+
+(* ---- end to end for the modelled MaximizeCAI (forward strand) ----
+   Instance of the solver: the modelled built-in classes (Proofs/Builtins.v).  optimize() on a problem
+   whose only objective is MaximizeCAI, next to constraints whose local copies are skipped as enforced
+   by nucleotide restrictions (EnforceTranslation), ends with EVERY codon a most-frequent synonym.
+   The objective side (score = sum of codon gaps, reported locations = the sub-optimal codons one by
+   one - the grouping with spread 3 never merges two codons -, localization to a codon) is proved;
+   the mutation-space side is the hypothesis [block_searchable]: at each sub-optimal codon the local
+   space is non-empty, below the exhaustive-search threshold, and contains a best synonym.  For the
+   synonymous-codon space of EnforceTranslation that is (i) above + C04; it is not re-proved here for
+   the concrete space, hence "_partial" - that part, the reverse strand and HarmonizeRCA are decided
+   by the differential run. *)
+Theorem C07_cai_optimize_reaches_every_codon_best_partial :
+  forall (lf lb : list (dna * Q)) (l : loc) (space : mspace) (n : Z) (cfg : settings) (cs : list Specs.spec)
+         (enforced passive : Specs.spec -> bool) st o st',
+    wf_space space -> (forall c, In c (choices_list space) -> cend c <= n) ->
+    wf_spec (SMaximizeCAI lf lb l) n -> lstrand l = 1 ->
+    (forall c f b, qassoc c lf = Some f -> qassoc c lb = Some b -> (f <= b)%Q) ->
+    (forall c w s, In c cs ->
+       match Specs.localized c w true s with
+       | LSome c' => enforced c' = true
+       | LNone => True
+       | LError => False
+       end) ->
+    passive (SMaximizeCAI lf lb l) = false ->
+    state_good Specs.spec space n st ->
+    (forall e B s, Specs.evaluate (SMaximizeCAI lf lb l) (cur _ st) = Some e ->
+       In B (match locs e with Some ls => ls | None => [] end) -> good space n s ->
+       block_searchable space n cfg lf lb l B s) ->
+    optimize Specs.spec b_ev Specs.localized b_reinit enforced (fun _ => Some 0%Q) b_boost passive (fun _ => None)
+             cfg space cs [SMaximizeCAI lf lb l] st = (o, st') ->
+    o = ODone /\ good space n (cur _ st') /\
+    forall i, 0 <= i < loc_len l / 3 -> codon_best lf lb l (cur _ st') i.
+Proof. exact cai_optimize_reaches_every_codon_best_partial. Qed.
+Print Assumptions C07_cai_optimize_reaches_every_codon_best_partial.
+
+(* the mutation-space hypothesis is satisfiable: a one-codon gene CTC whose space offers CTC / CTG,
+   with CTG the most frequent synonym *)
+Open Scope string_scope.
+Definition ex_space := mkSpace [Some (mkChoice 0 3 [sq "CTC"; sq "CTG"] false); Some (mkChoice 0 3 [sq "CTC"; sq "CTG"] false); Some (mkChoice 0 3 [sq "CTC"; sq "CTG"] false)].
+Definition ex_cfg := mkSettings 10 5%nat 2 [0; 5] None.
+Definition ex_lf : list (dna * Q) := [(sq "CTG", 0%Q); (sq "CTC", (-1)%Q)].
+Definition ex_lb : list (dna * Q) := [(sq "CTG", 0%Q); (sq "CTC", 0%Q)].
+Example C07_block_searchable_ex :
+  block_searchable ex_space 3 ex_cfg ex_lf ex_lb (mkLoc 0 3 1) (mkLoc 0 3 0) (sq "CTC").
+Proof.
+  unfold block_searchable. cbv zeta.
+  split; [vm_compute; discriminate|]. split; [vm_compute; reflexivity|].
+  exists 0, 3, [sq "CTC"; sq "CTG"].
+  split; [vm_compute; reflexivity|]. split; [cbn; lia|]. split; [cbn; lia|].
+  split; [vm_compute; reflexivity|].
+  exists (sq "CTG"). split; [right; left; reflexivity|].
+  intros i Hi _ _. assert (i = 0) by (change (loc_len (mkLoc 0 3 1) / 3) with 1 in Hi; lia). subst i.
+  exists 0%Q, 0%Q. vm_compute. repeat split; reflexivity.
+Qed.
